@@ -1,2 +1,43 @@
-(* C13 - generated auxiliary basis sets (theorems added as they are proved) *)
-From BSE Require Import Model.Val Model.Aux.
+(* C13 - generated auxiliary basis sets depend only on the orbital function space.
+   The theorems cover the logic of AutoAux / AutoABS over exact fractions (Model/Aux.v) with the published tables and
+   thresholds translated from manip.py (Gen/GenConsts.v).  _partial by nature: the float pipeline that produces the
+   per-momentum inputs (ints.gto_R_contr, gamma) and the representation invariance of the implementation itself are
+   explored by the harness, not proved. *)
+From Coq Require Import Sorting.Permutation.
+From BSE Require Import Model.Val Gen.GenConsts Model.Aux Proofs.AuxDefs.
+From BSE Require Proofs.AuxSpec.
+
+Theorem ladder_spec : ladder_spec_stmt.
+Proof. exact AuxSpec.ladder_spec. Qed.
+Print Assumptions ladder_spec.
+
+Theorem ladder_terminates : ladder_terminates_stmt.
+Proof. exact AuxSpec.ladder_terminates. Qed.
+Print Assumptions ladder_terminates.
+
+Theorem ladder_fuel_monotone : ladder_fuel_monotone_stmt.
+Proof. exact AuxSpec.ladder_fuel_monotone. Qed.
+Print Assumptions ladder_fuel_monotone.
+
+Theorem published_thresholds : thresholds_stmt.
+Proof. exact AuxSpec.thresholds. Qed.
+Print Assumptions published_thresholds.
+
+Theorem published_tables : tables_stmt.
+Proof. exact AuxSpec.tables. Qed.
+Print Assumptions published_tables.
+
+Theorem autoaux_caps : autoaux_caps_stmt.
+Proof. exact AuxSpec.autoaux_caps. Qed.
+Print Assumptions autoaux_caps.
+
+Theorem abs_groups_partition : abs_groups_partition_stmt.
+Proof. exact AuxSpec.abs_groups_partition. Qed.
+Print Assumptions abs_groups_partition.
+
+Theorem abs_groups_cap : abs_groups_cap_stmt.
+Proof. exact AuxSpec.abs_groups_cap. Qed.
+Print Assumptions abs_groups_cap.
+
+Example ladder_demo : ladder 10 (1, 1)%Z (5, 1)%Z (9, 5)%Z = Some [(1, 1); (9, 5); (81, 25); (729, 125)]%Z.
+Proof. vm_compute. reflexivity. Qed.
